@@ -333,3 +333,41 @@ def normal_functions(ctx: Ctx) -> None:
     x32 = x.float()
     if F.ncdf(x32).dtype != torch.float32 or F.npdf(x32).dtype != torch.float32:
         ctx.violation("normal:dtype", "ncdf / npdf of a float32 argument is not float32", {})
+
+
+def modules_follow_the_derivative(ctx: Ctx) -> None:
+    """A module built from a derivative and called WITHOUT arguments reads the derivative's state at the time of the call: after
+    the derivative was re-struck (strike reassigned, same simulation), after its underlier's series was replaced in place, and
+    after a new simulation, the call without arguments equals the call with that state handed over explicitly - for the price
+    and the delta - and the American binary is worth one (times nothing) wherever the running maximum has reached the strike."""
+    from checks.c07 import classes, make_derivative, state_of
+    from pfhedge.nn import BlackScholes
+    for p in classes():
+        for builder in ("BlackScholes", "from_derivative"):
+            d = make_derivative(p, True, 1.1)
+            m = BlackScholes(d) if builder == "BlackScholes" else classes()[p][1].from_derivative(d)
+            steps = [("first use", lambda: None), ("strike lowered to 0.7", lambda: setattr(d, "strike", 0.7)), ("strike raised to 1.6", lambda: setattr(d, "strike", 1.6)),
+                     ("series replaced", lambda: d.ul().register_buffer("spot", d.ul().spot.flip(0) * 1.125)), ("strike back to 1.1", lambda: setattr(d, "strike", 1.1))]
+            for label, act in steps:
+                act()
+                st = {k: v for k, v in state_of(d).items() if k in m.inputs()}
+                for g in ("price", "delta"):
+                    try:
+                        got = getattr(m, g)()
+                        want = getattr(m, g)(**{k: v.clone() for k, v in st.items()})
+                    except Exception as e:
+                        ctx.violation(f"module-state:{p}:raises", f"{type(m).__name__}.{g}() raised {type(e).__name__} ({label})", {"error": repr(e)[:200]})
+                        continue
+                    ctx.count(n=got.numel())
+                    same = (got == want) | (got.isnan() & want.isnan())
+                    if got.shape != want.shape or not bool(same.all()):
+                        ctx.violation(f"module-state:{p}:{g}", f"{type(m).__name__} ({builder}) .{g}() without arguments differs from the same call with the derivative's current state given explicitly ({label})",
+                                      {"step": label, "without_arguments": got.flatten().tolist()[:9], "with_current_state": want.flatten().tolist()[:9]})
+                if p == "american_binary":
+                    pr = m.price()
+                    reached = d.max_log_moneyness() >= 0
+                    ctx.count(n=1)
+                    if bool(reached.any()) and not bool(((pr[reached] - 1.0).abs() <= 1e-12).all()):
+                        ctx.violation("module-state:american_binary:reached", f"the American binary call is not worth 1 where the running maximum has reached the strike ({label})",
+                                      {"step": label, "price": pr.flatten().tolist(), "reached": reached.flatten().tolist()})
+
